@@ -14,10 +14,11 @@ Cols == {"size", "hardlinks", "uid", "line_count", "length(name)"}
 
 LikeA(c) == A1("name", "like", TextL(<<c, "%">>), "")
 Filters == [ all |-> <<"T">>, a |-> <<"A">>, b |-> <<"B">>, c |-> <<"C">>, d |-> <<"D">>, none |-> <<"Z">>,
-             one |-> <<"E">>, ab |-> <<"or", "A", "B">>, notd |-> <<"not", "D">> ]
+             one |-> <<"E">>, ab |-> <<"or", "A", "B">>, notd |-> <<"not", "D">>,
+             e |-> <<"F">>, ae |-> <<"or", "A", "F">>, sa |-> <<"or", "S", "A">>, se |-> <<"or", "S", "F">> ]
 FAtoms == [ A |-> LikeA("a"), B |-> LikeA("b"), C |-> LikeA("c"), D |-> LikeA("d"), Z |-> LikeA("z"),
-            E |-> A1("name", "eq", TextL(<<"a","1",".","t","x","t">>), ""), T |-> A1("length(name)", "gte", IntL(0), "") ]
-SmallOnly == {"a", "b", "none", "one", "ab"}      \* filters that keep the sparse giants away from line_count
+            E |-> A1("name", "eq", TextL(<<"a","1",".","t","x","t">>), ""), F |-> LikeA("e"), S |-> LikeA("s"), T |-> A1("length(name)", "gte", IntL(0), "") ]
+SmallOnly == {"a", "b", "none", "one", "ab", "e", "ae", "sa", "se"}      \* filters that keep the sparse giants away from line_count
 
 Init == fns = <<>> /\ col = "" /\ flt = "" /\ phase = "start"
 Choose == /\ phase = "start"
